@@ -62,7 +62,7 @@ fn('linear._RidgeRegression.fit', props='C02 C06 C20',
 
 XP = ('(x if (is_none(self.scaler) or not scaler_fitted(scaler_state(self.scaler))) else '
       'scaler_transform(scaler_state(self.scaler), x))')
-PRED_REQ = ['INV.shape', 'rows(x) >= 1', 'cols(x) == cols(self.A)']
+PRED_REQ = ['INV.shape', 'cols(x) == cols(self.A)']
 fn('linear._RidgeRegression.predict', props='C02 C09 C10',
    params={'x': 'mat'}, requires=PRED_REQ, modifies=[],
    ensures=['[C02,ridge] result == matvec(%s, self.beta)' % XP, 'slen(result) == rows(x)'], result='rseq')
@@ -71,8 +71,8 @@ fn('linear._LinUCB.predict', props='C02 C09 C10',
    # C02: x.beta + alpha * sqrt(x' A^-1 x), row by row
    ensures=['slen(result) == rows(x)',
             '[C02,ucb] forall_int(lambda i: implies(0 <= i and i < rows(x), at(result, i) == '
-            'vdot(row(%s, i), self.beta) + self.alpha * sqrt(vdot(vecmat(row(%s, i), self.A_inv), row(%s, i)))))'
-            % (XP, XP, XP)],
+            'vdot(row(%s, i), self.beta) + self.alpha * sqrt(vdot(vecmat(row(%s, i), self.A_inv), row(%s, i)))), '
+            'lambda i: at(result, i))' % (XP, XP, XP)],
    result='rseq')
 COV = 'smul(self.alpha * self.alpha, self.A_inv)'
 SAMPLES = 'draw_mvn(%s, self.beta, %s, rows(x))' % (S0, COV)
@@ -81,7 +81,7 @@ fn('linear._LinTS.predict', props='C02 C09 C10',
    # C02: a draw centred on x.beta: row i uses the i-th sampled coefficient vector
    ensures=['[C02,C08,ts.len] slen(result) == rows(x)',
             '[C02,ts.rowwise] forall_int(lambda i: implies(0 <= i and i < rows(x), at(result, i) == '
-            'vdot(row(%s, i), row(%s, i))))' % (XP, SAMPLES),
+            'vdot(row(%s, i), row(%s, i))), lambda i: at(result, i))' % (XP, SAMPLES),
             '[C10,ts.stream] rngstate(self.rng) == next_mvn(%s, self.beta, %s, rows(x))' % (S0, COV)],
    result='rseq')
 
@@ -207,3 +207,46 @@ fn('linear._Linear.partial_fit', props='C02 C06 C08 C17 C20',
             '[C02,C06,acc.solution] ' + forall_arms('implies(cnt(decisions, a) > 0, %s == minv(%s) and %s == matvec(%s, %s))'
                                                     % (MV('A_inv'), MV('A'), MV('beta'), MV('A_inv'), MV('Xty'))),
             '[C13,acc.status] ' + STATUS_AFTER_PARTIAL])
+
+
+def vec_result(run, env):
+    from pyvc.engine import to_bool_term
+    from specs.base_mab import pe_result, pred_result
+    if run.branch(to_bool_term(env['is_predict'])):
+        return pred_result(run, env)
+    return pe_result(run, env)
+
+
+P_ = 'draw_uv(%s, rows(contexts))' % S0            # one uniform draw per row decides exploration
+NONE_RANDOM = 'forall_int(lambda i: implies(0 <= i and i < rows(contexts), at(%s, i) >= self.epsilon))' % P_
+# what the model of arm a predicts for row i (deterministic variants)
+XPA = ('(contexts if (is_none(%s) or not scaler_fitted(%s)) else scaler_transform(%s, contexts))'
+       % (MV('scaler'), MV('scaler'), MV('scaler')))
+RIDGE_IA = 'vdot(row(%s, i), %s)' % (XPA, MV('beta'))
+UCB_IA = ('(vdot(row(%s, i), %s) + self.alpha * sqrt(vdot(vecmat(row(%s, i), %s), row(%s, i))))'
+          % (XPA, MV('beta'), XPA, MV('A_inv'), XPA))
+DET_IA = '(%s if self.regression == "ridge" else %s)' % (RIDGE_IA, UCB_IA)
+EXP_ROW = '(result if is_dict(result) else item(result, i))'
+fn('linear._Linear._vectorized_predict_context', props='C02 C08 C09 C10',
+   params={'contexts': 'mat', 'is_predict': 'bool'}, result=vec_result,
+   requires=['INV', 'not is_none(self.num_features)', 'cols(contexts) == self.num_features', 'rows(contexts) >= 1',
+             'slen(self.arms) > 0'],
+   modifies=['self.rng.rng.state', 'self.arm_to_model[*]'],
+   ensures=['[C08,shape] (is_list(result) == (rows(contexts) > 1)) if is_predict else (is_dict(result) == (rows(contexts) == 1))',
+            '[C08,len] (slen(result) == rows(contexts)) if rows(contexts) > 1 else True',
+            '[C08,keys] is_predict or ((keys(result) == self.arms) if is_dict(result) else '
+            'forall_int(lambda j: implies(0 <= j and j < rows(contexts), keys(item(result, j)) == self.arms)))',
+            '[C08,member] (not is_predict) or (mem(self.arms, result) if not is_list(result) else '
+            'forall_int(lambda j: implies(0 <= j and j < rows(contexts), mem(self.arms, at(result, j)))))',
+            # C02: with no exploring row (always the case for epsilon = 0) every expectation is the model's prediction
+            '[C02,exploit] is_predict or self.regression == "ts" or implies(%s, forall_int(lambda i: implies(0 <= i and '
+            'i < rows(contexts), forall_arm(lambda a: implies(mem(self.arms, a), val(%s, a) == %s)))))'
+            % (NONE_RANDOM, EXP_ROW, DET_IA),
+            # C09: predict takes the first arm attaining the maximum of the same expectations
+            '[C09,argmax] (not is_predict) or self.regression == "ts" or implies(%s, forall_int(lambda i: implies(0 <= i and '
+            'i < rows(contexts), is_first_argmax((result if not is_list(result) else at(result, i)), self.arms, '
+            'lambda a: %s))))' % (NONE_RANDOM, DET_IA),
+            # C10: nothing learned changes (generators advance)
+            '[C10,readonly] ' + forall_arms(' and '.join('%s == old(%s)' % (MV(f), MV(f))
+                                                         for f in ('A', 'A_inv', 'Xty', 'beta', 'scaler', 'l2_lambda', 'alpha',
+                                                                   'scale', '#rng_shared')))])
